@@ -132,8 +132,21 @@ def sel (l : List (F64 × Int)) (x : F64) : Option Int :=
 def sortedEnds (l : List F64) : Bool :=
   l.all (fun e => !e.isNaN) && (List.zip l l.tail).all (fun (a, b) => F64.le a b)
 
-def merge (fEnds gEnds : List FX) (impl : Out) : Option String :=
-  match fEnds.mapM unv, gEnds.mapM unv with
+/-- `reveal`: k of every piece (first number) when the other five numbers are zero -/
+def revealK (l : List (FX × List FX)) : Option (List (F64 × Rat)) :=
+  l.mapM fun (e, ns) => match unv e, ns with
+    | some ev, k :: rest => (match (unv k).bind F64.toRat? with
+        | some kr => if rest.all (fun r => match r with | .v x => x == F64.zero false | _ => false) then some (ev, kr) else none
+        | none => none)
+    | _, _ => none
+
+def selR (l : List (F64 × Rat)) (x : F64) : Option Rat :=
+  match l.find? (fun (e, _) => F64.lt x e) with
+  | some (_, c) => some c
+  | none => l.getLast?.map (·.2)
+
+def merge (f g : List (FX × List FX)) (isSub : Bool) (impl : Out) : Option String :=
+  match (f.map (·.1)).mapM unv, (g.map (·.1)).mapM unv with
   | some fe, some ge =>
     let wf := !fe.isEmpty && !ge.isEmpty && sortedEnds fe && sortedEnds ge
     if !wf then
@@ -151,7 +164,18 @@ def merge (fEnds gEnds : List FX) (impl : Out) : Option String :=
         else if rs.length + 1 > fe.length + ge.length then some "more than len f + len g - 1 pieces"
         else if !(re.all fun e => fe.contains e || ge.contains e) then some "a breakpoint that is in neither operand"
         else if !sortedEnds re then some "result breakpoints are not non-decreasing"
-        else none
+        else
+          -- pointwise on index-revealing pieces: at every breakpoint class of either operand
+          match revealK f, revealK g, revealK rs with
+          | some fk, some gk, some rk =>
+            let pts := (fe ++ ge).flatMap (fun e => [F64.nextDown e, e, F64.nextUp e]) ++ [F64.inf true, F64.inf false]
+            pts.findSome? fun x =>
+              match selR fk x, selR gk x, selR rk x with
+              | some a, some b, some r =>
+                if r == (if isSub then a - b else a + b) then none
+                else some s!"at x={x.toHex} the result does not combine the pieces that f and g select there"
+              | _, _, _ => none
+          | _, _, _ => none
     | _ => some "unexpected output shape"
   | _, _ => none
 
@@ -411,6 +435,52 @@ def pwIntegral (cmd : String) (tag : Option String) (src : List (FX × List FX))
       | _, _ => none
     | _, _ => none
   | none => none
+
+/-- C14: the numbers of the result are the correctly rounded operation on the corresponding numbers.
+Computed here directly with the soft-float operations from the wire numbers (independent of the generated
+instances). `i`-tags: the first number is the additive constant k. -/
+def ops (cmd : String) (tag : Option String) (p q : List FX) (s : Option FX) (impl : Out) : Option String :=
+  match tag, p.mapM unv, q.mapM unv, impl with
+  | some t, some ps, some qs, .nums rs =>
+    match rs.mapM unv with
+    | none => none
+    | some out =>
+      let negOne := F64.neg (F64.ofDec 1 0)
+      let isI := t.startsWith "i"
+      let expect : Option (List F64) :=
+        match cmd, s.bind unv with
+        | "mul", some sv =>
+          if isI then (match ps with | k :: rest => some (F64.mul sv k :: rest.map (F64.mul · sv)) | [] => none)
+          else some (ps.map (F64.mul · sv))
+        | "mulassign", some sv => some (ps.map (F64.mul · sv))
+        | "neg", _ =>
+          if t == "q4" then some (ps.map F64.neg)
+          else if isI then (match ps with | k :: rest => some (F64.neg k :: rest.map (F64.mul · negOne)) | [] => none)
+          else some (ps.map (F64.mul · negOne))
+        | "add", _ => if ps.length == qs.length then some (List.zipWith F64.add ps qs) else none
+        | "sub", _ => if ps.length == qs.length then some (List.zipWith F64.sub ps qs) else none
+        | "translate", some v =>
+          (match ps with
+           | c0 :: rest => some (F64.add c0 v :: rest)
+           | [] => if t == "pn" then some [v] else none)
+        | _, _ => none
+      match expect with
+      | none => none
+      | some e => if e == out then none else some s!"{cmd}: the numbers of the result are not the correctly rounded operation on the corresponding numbers"
+  | _, _, _, .panic => some "operator panicked on finite input"
+  | _, _, _, _ => none
+
+/-- C15 / C08: a segment / piecewise scalar operation keeps the number of pieces, their order and every
+breakpoint bit-identical -/
+def pwShape (src : List (FX × List FX)) (impl : Out) : Option String :=
+  match impl with
+  | .segs rs =>
+    if rs.length != src.length then some "number of pieces changed"
+    else if !(List.zip rs src).all (fun (a, b) => sameF a.1 b.1 || (match a.1, b.1 with | .v x, .v y => x.isNaN && y.isNaN | _, _ => false))
+      then some "a breakpoint changed"
+    else none
+  | .panic => some "operation panicked"
+  | _ => some "unexpected output shape"
 
 /-- C19: an `Ok` value has at least one segment, every end is a normal float, ends are non-decreasing, and
 (reported by the harness) direct evaluation, the stateful evaluator and evaluate_v agree on it without panic -/
